@@ -1,4 +1,5 @@
 import OpusProofs.FramingSafe
+import OpusProofs.FramingRange
 /-
   Property C06 — "Packet parser accepts exactly RFC 6716 framing and reports the true frames".
 
@@ -142,5 +143,60 @@ example : parseImpl true (serialize true exPacket ++ [9, 9]) = .ok (view true ex
 example : (view true exPacket).sizes = [3, 0, 300] ∧ (view true exPacket).padLen = 256 := by decide +kernel
 /-- and a rejected one: code 1 with an odd payload. -/
 example : parseImpl false [0x01, 1, 2, 3] = .err .invalidPacket := by decide +kernel
+
+
+/-! ### `int_ranges`: the unbounded `Int` arithmetic of the model hides no C overflow -/
+
+/-- `int_ranges`, 32-bit half.  For EVERY packet of fewer than 2^31 bytes (every `len` the
+    `opus_int32` parameter can hold), in both framings, on every path — accepted or rejected early —
+    every `int` / `opus_int32` value that `opus_packet_parse_impl` computes fits 32 bits:
+    `implTrace sd bs` lists them in program order (`framesize`, `len--`, `len&1`, `len/2`, each
+    `len -= bytes`, `len - size[0]`, `framesize*count`, in the padding loop `len--`, `len -= tmp`,
+    `pad += tmp`, in the VBR loop `bytes + size[i]` and `last_size -= …`, `len/count`,
+    `last_size*count`, `size[count-1]*count`, `bytes + size[count-1]`, `data - data0`, every
+    `data += size[i]`, `pad + (data - data0)`).  The tight spots: `len - 1 - tmp ≥ -254` and
+    `pad ≤ 254·(len + 254)/255 < 2^31` in the padding loop (invariant `255·pad ≤ 254·(len₀ - len)`). -/
+theorem int_ranges (sd : Bool) (bs : Bytes) (hb : BytesOk bs) (hl : bs.length ≤ 2147483647) :
+    ∀ v ∈ implTrace sd bs, FramingProofs.I32 v :=
+  implTrace_range sd bs hb hl
+
+example : implTrace false [0xFB, 0xC3, 2, 1, 0, 9, 9, 9, 9, 0, 0] =
+    [960, 10, 2880, 9, 8, 6, 2, 1, 5, 2, 4, 0, 4, 1, 3, 5, 5, 6, 6, 9, 2, 11] ∧
+    implTrace true [0x03, 0x42, 255, 3, 2, 7, 7, 8, 8] = [480, 8, 960, 7, 6, -248, 254] := by decide +kernel
+
+/-- `int_ranges`, `opus_int16` half.  Whenever the parse SUCCEEDS, every explicit `(opus_int16)`
+    store into `size[]` is lossless: the cast operands (`castStores`: `last_size` at src/opus.c:232,
+    :299-300, :330) lie in `[0, 1275]`; all other stores into `size[]` are made by `parse_size`, whose
+    stored value is always -1 or at most 1275, or copy an `opus_int16`. -/
+theorem int16_stores_lossless (sd : Bool) (bs : Bytes) (hb : BytesOk bs) (r : Parsed)
+    (h : parseImpl sd bs = .ok r) :
+    (∀ v ∈ castStores sd bs, 0 ≤ v ∧ v ≤ 1275) ∧
+    (∀ data len bytes sz, BytesOk data → parseSize data len = .ok (bytes, sz) → -1 ≤ sz ∧ sz ≤ 1275) :=
+  ⟨castStores_lossless sd bs hb r h,
+   fun data len bytes sz hd hp => ⟨(parseSize_range data hd len bytes sz hp).1, (parseSize_range data hd len bytes sz hp).2.1⟩⟩
+
+example : castStores false [0xFB, 0x03, 1, 2, 3, 4, 5, 6] = [2, 2, 2] ∧
+    parseImpl false [0xFB, 0x03, 1, 2, 3, 4, 5, 6] =
+      .ok { toc := 0xFB, count := 3, sizes := [2, 2, 2], payloadOffset := 2, padLen := 0, packetOffset := 8 } := by
+  decide +kernel
+
+/-- What is stored on the failure paths that return early.  The stores of src/opus.c:232 (code 1) and
+    :299-300 (code-3 CBR) happen BEFORE `last_size > 1275` is tested, so for a huge packet `size[i]`
+    receives the low 16 bits of `last_size` (up to `len/2`); whenever a cast operand does not fit
+    `opus_int16` the function returns OPUS_INVALID_PACKET (so the truncated `size[]` contents are never
+    reported as a success) — the C comment "If last_size doesn't fit in size[0], we'll catch it later"
+    holds.  On all other early returns `size[]` holds only values written by `parse_size` (-1 for a
+    failed length field) or nothing. -/
+theorem int16_truncated_store_rejected (sd : Bool) (bs : Bytes) (hb : BytesOk bs) (v : Int)
+    (hv : v ∈ castStores sd bs) (hbig : ¬ FramingProofs.I16 v) : parseImpl sd bs = .err .invalidPacket :=
+  castStores_truncated_rejected sd bs hb v hv hbig
+
+/- a 70001-byte code-1 packet: `size[0]` receives `(opus_int16)35000 = -30536`, the call fails -/
+example (data : Bytes) (h : data.length = 70000) :
+    castStores false (1 :: data) = [35000] ∧ ¬ FramingProofs.I16 35000 ∧
+    parseImpl false (1 :: data) = .err .invalidPacket := by
+  refine ⟨?_, by decide, ?_⟩
+  · simp [castStores, parseHdr, h]
+  · simp [parseImpl, parseHdr, finish, h]
 
 end OpusProps.C06
